@@ -12,7 +12,7 @@ for f in glob.glob(d + "/*.json"):
     for fn, ln in json.load(open(f)):
         seen.setdefault(fn, set()).add(ln)
 tot_e = tot_m = 0
-for fn in sorted(glob.glob("/repo/canopen/**/*.py", recursive=True)):
+for fn in sorted(glob.glob("/tmp/wtx/canopen/**/*.py", recursive=True)):
     src = open(fn).read()
     tree = ast.parse(src)
     exe = set()
@@ -29,7 +29,7 @@ for fn in sorted(glob.glob("/repo/canopen/**/*.py", recursive=True)):
     miss = sorted(exe - hit)
     tot_e += len(exe)
     tot_m += len(miss)
-    print(f"== {fn[6:]}: {len(exe) - len(miss)}/{len(exe)} statements in functions executed")
+    print(f"== {fn[9:]}: {len(exe) - len(miss)}/{len(exe)} statements in functions executed")
     byfn = {}
     for ln in miss:
         byfn.setdefault(owner[ln], []).append(ln)
